@@ -194,7 +194,12 @@ def check_chain(ctx, sizes, base):
             chained = Populations(pops).to_population()
             n = len(chained)
             if n != sum(sizes):
-                ctx.violation("ChainTrees.__init__", "cumsum-length", spec, n, sum(sizes), spec)
+                # who is wrong: the chain container (then a chain built directly from the members' containers is wrong as well) or to_population
+                direct_ok = len(ChainTrees([p.trees for p in pops])) == sum(sizes)
+                if direct_ok:
+                    ctx.violation("Populations.to_population", "total-length-is-the-sum-of-all-member-lengths", spec, n, sum(sizes), spec)
+                else:
+                    ctx.violation("ChainTrees.__init__", "cumsum-length", spec, n, sum(sizes), spec)
             else:
                 for i in range(-n, n):
                     if os.path.abspath(chained[i].source) != os.path.abspath(allfiles[i % n]):
@@ -215,6 +220,217 @@ def check_chain(ctx, sizes, base):
         except Exception as e:
             ctx.violation("Populations.to_population", "operation-raises", spec, f"{type(e).__name__}: {e}", "no exception", spec)
     ctx.case("chain", dict(sizes=list(sizes)), nontrivial=sum(sizes) > 0)
+
+
+SLICE_BOUNDS = (None, 0, 1, 2, -1, -2, 5, -5)
+SLICE_STEPS = (None, 1, 2, -1, -2, 3)
+
+
+def all_slices():
+    return [slice(a, b, c) for a in SLICE_BOUNDS for b in SLICE_BOUNDS for c in SLICE_STEPS]
+
+
+def _src(t):
+    return os.path.abspath(t.source)
+
+
+def _check_container(ctx, carrier, spec, cont, want, slices=None, far=3):
+    """`cont` (anything with __len__ / __getitem__) must behave like the list `want` of file paths: length, every index from
+    -len-far to len+far (IndexError exactly outside -len..len-1), and -- for a Population -- every slice form of `slices`"""
+    n = len(want)
+    if len(cont) != n:
+        ctx.violation(carrier, "length", spec, len(cont), n, spec)
+        return False
+    ok = True
+    for i in range(-n - far, n + far):
+        try:
+            got = _src(cont[i])
+        except IndexError:
+            got = IndexError
+        exp = os.path.abspath(want[i]) if -n <= i < n else IndexError
+        if got != exp:
+            ctx.violation(carrier, "index-i-is-the-i-th-tree-negative-from-the-end-IndexError-outside", dict(spec, index=i), str(got), str(exp), spec)
+            ok = False
+            break
+    for sl in slices or ():
+        sub = cont[sl]
+        exp = [os.path.abspath(w) for w in want[sl]]
+        got = [_src(sub[k]) for k in range(len(sub))]
+        if got != exp:
+            ctx.violation(carrier, "slice-is-python's-slice-of-the-trees-in-order", dict(spec, slice=str(sl)), got, exp, spec)
+            ok = False
+            break
+        # a slice is a container of its own: negative / out-of-range positions, and a slice of a slice
+        m = len(exp)
+        for i in (-m, -1, m - 1):
+            if m and _src(sub[i]) != exp[i]:
+                ctx.violation(carrier, "slice-view-index", dict(spec, slice=str(sl), index=i), _src(sub[i]), exp[i], spec)
+                ok = False
+        for i in (m, -m - 1):
+            try:
+                sub[i]
+                ctx.violation(carrier, "slice-view-index-out-of-range", dict(spec, slice=str(sl), index=i), "no error", "IndexError", spec)
+                ok = False
+            except IndexError:
+                pass
+    return ok
+
+
+def check_members(ctx, sizes, base, slices, via="list"):
+    """Populations over members of the given sizes (unequal, empty, one, many): len(ps) is the minimum, row i holds tree i of every
+    member, ps[slice] slices every member, to_population() is the concatenation of ALL members (length = sum), and the chained
+    population answers every index / slice like the concatenated list; each file is read at most once over the whole history"""
+    from swcgeom.core.population import ChainTrees, Population, Populations
+
+    import warnings
+
+    spec = dict(kind="members", sizes=list(sizes), via=via)
+    roots = []
+    for k, n in enumerate(sizes):
+        root = os.path.join(base, f"mem{k}")
+        _build(root, {(f"f{j}.swc" if j % 2 == 0 else f"sub{j}/f{j}.swc"): 2 + (j + k) % 3 for j in range(n)})
+        roots.append(root)
+    with ReadCounter() as rc, warnings.catch_warnings():
+        warnings.simplefilter("ignore")
+        try:
+            if via == "list":
+                ps = Populations([Population.from_swc(r) for r in roots])
+            else:
+                ps = Populations.from_swc(roots, intersect=False)
+            files = [list(p.trees.swcs) for p in ps.populations]
+            if [len(f) for f in files] != list(sizes) or ps.num_of_populations() != len(sizes):
+                ctx.violation("Populations.from_swc", "without-intersection-each-population-lists-what-was-found-under-its-root", spec, [len(f) for f in files], list(sizes), spec)
+                return
+            if len(ps) != min(sizes):
+                ctx.violation("Populations.__len__", "the-recorded-minimum-length", spec, len(ps), min(sizes), spec)
+            for i in range(min(sizes)):
+                row = [_src(t) for t in ps[i]]
+                if row != [os.path.abspath(f[i]) for f in files]:
+                    ctx.violation("Populations.__getitem__", "row-of-the-key-th-tree-of-every-population-in-order", dict(spec, index=i), row, [f[i] for f in files], spec)
+                    break
+            rows = [[_src(t) for t in r] for r in ps]
+            if rows != [[os.path.abspath(f[i]) for f in files] for i in range(min(sizes))]:
+                ctx.violation("Populations.__iter__", "len-rows-in-order", spec, rows, "rows 0..min-1", spec)
+            for sl in slices[:: max(1, len(slices) // 12)]:
+                parts = ps[sl]
+                got = [[_src(v[k]) for k in range(len(v))] for v in parts]
+                exp = [[os.path.abspath(x) for x in f[sl]] for f in files]
+                if got != exp:
+                    ctx.violation("Populations.__getitem__", "a-slice-slices-every-population", dict(spec, slice=str(sl)), got, exp, spec)
+                    break
+            allfiles = [x for f in files for x in f]
+            chained = ps.to_population()
+            direct = Population(ChainTrees(p.trees for p in ps.populations)) if sum(sizes) else None
+            if len(chained) != sum(sizes):
+                # who is wrong: the chain container (then the directly built chain is wrong as well) or the way to_population feeds it
+                carrier = "ChainTrees.__init__" if direct is not None and len(direct) != sum(sizes) else "Populations.to_population"
+                ctx.violation(carrier, "total-length-is-the-sum-of-all-member-lengths", spec, len(chained), sum(sizes), spec)
+            elif not _check_container(ctx, "Populations.to_population", spec, chained, allfiles, slices):
+                pass
+            else:
+                got = [_src(t) for t in chained]
+                if got != [os.path.abspath(x) for x in allfiles]:
+                    ctx.violation("Populations.to_population", "iteration-yields-the-members'-trees-concatenated-in-order", spec, got, allfiles, spec)
+                _check_container(ctx, "ChainTrees.__getitem__", spec, chained.trees, allfiles)
+            for k, p in enumerate(ps.populations):  # the members themselves, after all of the above
+                _check_container(ctx, "LazyLoadingTrees.__getitem__", dict(spec, member=k), p.trees, files[k])
+        except Exception as e:
+            ctx.violation("Populations.to_population", "operation-raises", spec, f"{type(e).__name__}: {e}", "no exception", spec)
+        bad = {f: c for f, c in rc.reads.items() if c > 1}
+        if bad:
+            ctx.violation("LazyLoadingTrees.load", "never-reads-twice", spec, bad, "each file read at most once", spec)
+    ctx.case("members", dict(sizes=list(sizes), via=via), nontrivial=sum(sizes) > 0)
+
+
+def check_dirs(ctx, name, layouts, base):
+    """Populations.from_swc over directories with DIFFERENT file sets / file counts: intersect=True keeps exactly the common relative
+    paths (rows of same-named files, every population equally long), intersect=False keeps every directory's own files"""
+    from swcgeom.core.population import Populations
+
+    import warnings
+
+    roots = []
+    for k, lay in enumerate(layouts):
+        r = os.path.join(base, f"dir_{name}_{k}")
+        _build(r, lay)
+        roots.append(r)
+    swcs = [sorted(x for x in lay if x.endswith(".swc")) for lay in layouts]
+    common = sorted(set(swcs[0]).intersection(*map(set, swcs[1:]))) if swcs else []
+    for intersect in (True, False):
+        spec = dict(kind="dirs", layout=name, intersect=intersect)
+        with ReadCounter() as rc, warnings.catch_warnings():
+            warnings.simplefilter("ignore")
+            try:
+                ps = Populations.from_swc(roots, intersect=intersect)
+                rels = [[os.path.relpath(f, r) for f in p.trees.swcs] for p, r in zip(ps.populations, roots)]
+                if intersect:
+                    if any(sorted(x) != common for x in rels) or any(x != rels[0] for x in rels):
+                        ctx.violation("Populations.from_swc", "row-i-holds-same-named-files:the-same-relative-path-joined-with-each-root-same-order-everywhere", spec, rels, common, spec)
+                elif [sorted(x) for x in rels] != swcs:
+                    ctx.violation("Populations.from_swc", "without-intersection-each-population-lists-what-was-found-under-its-root", spec, rels, swcs, spec)
+                want_len = len(common) if intersect else min(len(x) for x in swcs)
+                if len(ps) != want_len:
+                    ctx.violation("Populations.from_swc", "len-is-the-minimum-population-length", spec, len(ps), want_len, spec)
+                for i in range(-len(ps), len(ps)) if intersect else range(len(ps)):
+                    row = ps[i]
+                    names = [os.path.relpath(t.source, r) for t, r in zip(row, roots)]
+                    if names != [x[i] for x in rels] or (intersect and len(set(names)) != 1):
+                        ctx.violation("Populations.__getitem__", "rows-of-same-named-files", dict(spec, index=i), names, [x[i] for x in rels], spec)
+                        break
+                chained = ps.to_population()
+                allfiles = [f for p in ps.populations for f in p.trees.swcs]
+                if len(chained) != len(allfiles):
+                    ctx.violation("Populations.to_population", "total-length-is-the-sum-of-all-member-lengths", spec, len(chained), len(allfiles), spec)
+                else:
+                    _check_container(ctx, "Populations.to_population", spec, chained, allfiles, [slice(None), slice(None, None, -1), slice(1, -1), slice(None, None, 2)])
+            except Exception as e:
+                ctx.violation("Populations.from_swc", "operation-raises", spec, f"{type(e).__name__}: {e}", "no exception", spec)
+            bad = {f: c for f, c in rc.reads.items() if c > 1}
+            if bad:
+                ctx.violation("LazyLoadingTrees.load", "never-reads-twice", spec, bad, "each file read at most once", spec)
+        ctx.case("dirs", dict(layout=name, intersect=intersect))
+
+
+DIR_SETS = {
+    "equal": [{"x.swc": 2, "sub/y.swc": 3}, {"x.swc": 4, "sub/y.swc": 5}],
+    "one-extra-each": [{"x.swc": 2, "y.swc": 3, "sub/z.swc": 4, "only_a.swc": 2}, {"x.swc": 5, "y.swc": 6, "sub/z.swc": 7, "only_b.swc": 2}],
+    "different-counts": [{"x.swc": 2, "y.swc": 3, "z.swc": 4, "sub/w.swc": 2, "sub/v.swc": 3}, {"x.swc": 5, "sub/w.swc": 3}, {"x.swc": 2, "y.swc": 2, "sub/w.swc": 4}],
+    "one-empty": [{"x.swc": 2, "y.swc": 3}, {"notes.txt": 0}],
+    "disjoint": [{"a.swc": 2, "b.swc": 3}, {"c.swc": 2}],
+    "single-root": [{"a.swc": 2, "sub/b.swc": 3, "sub/c.swc": 4}],
+}
+
+
+def check_slices(ctx, name, layout, base, slices):
+    """every slice form on a Population over a directory, on the lazy container reached through a slice of a slice, on a filtered view"""
+    from swcgeom.core.population import Population, filter_population
+
+    import warnings
+
+    root = os.path.join(base, "sl_" + name)
+    _build(root, layout)
+    spec = dict(kind="slices", layout=name)
+    with ReadCounter() as rc, warnings.catch_warnings():
+        warnings.simplefilter("ignore")
+        try:
+            pop = Population.from_swc(root)
+            files = list(pop.trees.swcs)
+            _check_container(ctx, "Population.__getitem__", spec, pop, files, slices)
+            _check_container(ctx, "LazyLoadingTrees.__getitem__", spec, pop.trees, files)
+            for sl in slices[::7]:
+                inner = Population(pop[sl], root=root) if len(files[sl]) else None
+                if inner is not None:
+                    _check_container(ctx, "NestTrees.__getitem__", dict(spec, outer=str(sl)), inner, files[sl], slices[::11])
+            sub = filter_population(pop, lambda t: t.number_of_nodes() % 2 == 0)
+            want = [f for f in files if layout[os.path.relpath(f, root)] % 2 == 0]
+            if want:
+                _check_container(ctx, "filter_population", spec, sub, want, slices[::5])
+        except Exception as e:
+            ctx.violation("Population.__getitem__", "operation-raises", spec, f"{type(e).__name__}: {e}", "no exception", spec)
+        bad = {f: c for f, c in rc.reads.items() if c > 1}
+        if bad:
+            ctx.violation("LazyLoadingTrees.load", "never-reads-twice", spec, bad, "each file read at most once", spec)
+    ctx.case("slices", dict(layout=name), nontrivial=len(layout) > 0)
 
 
 def check_populations(ctx, base):
@@ -354,6 +570,20 @@ def run(ctx):
         size_sets = [t for m in (2, 3, 4) for t in itertools.product(range(0, top), repeat=m)] + [(3, 0, 1), (1, 2, 0, 0, 3, 1), (0, 0, 1, 0, 2, 0)]
         for sizes in size_sets:
             check_chain(ctx, sizes, base)
+        # MEMBER LENGTHS are part of the input space of Populations: one member, unequal members, empty members in every position, many
+        # members; built from separately made populations and from directories with different file counts (intersect=False)
+        slices = all_slices()
+        member_sets = [(1,), (0,), (3,), (4, 4)] + [t for t in itertools.product(range(0, top + 1), repeat=2) if t[0] != t[1]] + \
+                      [(2, 4, 3), (3, 0, 1), (0, 2, 0), (1, 1, 1), (5, 1, 2, 4), (2, 0, 0, 3), tuple(rng.randrange(0, 4) for _ in range(8)), tuple(rng.randrange(1, 6) for _ in range(6))]
+        if ctx.tier != "quick":
+            member_sets += [t for t in itertools.product(range(0, 4), repeat=3)]
+        for sizes in member_sets:
+            for via in ("list", "from_swc"):
+                check_members(ctx, sizes, base, slices if ctx.tier != "quick" else slices[::3], via)
+        for name, lays in DIR_SETS.items():
+            check_dirs(ctx, name, lays, base)
+        for name, layout in LAYOUTS.items():
+            check_slices(ctx, name, layout, base, slices)
         check_populations(ctx, base)
         check_map(ctx, base)
         check_filter(ctx, base)
@@ -362,6 +592,10 @@ def run(ctx):
                  "; ALL histories of length 2.." + str(depth) + " over the access routes index / negative index / slice / reversed slice / Population iteration / "
                  "container iteration (whole, partial) / Population.map in a worker process / PopulationTransform) with a Tree.from_swc call counter checked after every step; chains of 2-4 populations with 0-2 (thorough: 0-3) trees each, all splits, and two 6-member chains with runs of empty members; two-directory intersection; map with 2 workers. "
                  "filter_population with 4 predicates; check_same on equal / different directory pairs. "
+                 "Populations over members of every length pattern (one member, unequal pairs 0..3, empty members in every position, triples, 4-8 members) built from a list of populations "
+                 "and by from_swc(intersect=False): len = minimum, rows, row slices, to_population = concatenation of ALL members (length = sum, every index from -len-3 to len+3, "
+                 "every slice form start/stop in {None,0,1,2,-1,-2,5,-5} x step in {None,1,2,-1,-2,3}, iteration), members re-indexed afterwards, read counter; "
+                 "from_swc with intersect True / False over directory sets with equal / differing / empty / disjoint file sets and 1-3 roots; every slice form on Population, on a slice of a slice, on a filtered view. "
                  "Non-trivial = layout with >=1 file and >=1 operation", exhaustive=False)
     finally:
         shutil.rmtree(base, ignore_errors=True)
@@ -387,6 +621,12 @@ def replay(spec):
             check_ops(c, spec["layout"], LAYOUTS[spec["layout"]], ops, base)
         elif spec["kind"] == "chain":
             check_chain(c, spec["sizes"], base)
+        elif spec["kind"] == "members":
+            check_members(c, spec["sizes"], base, all_slices(), spec.get("via", "list"))
+        elif spec["kind"] == "dirs":
+            check_dirs(c, spec["layout"], DIR_SETS[spec["layout"]], base)
+        elif spec["kind"] == "slices":
+            check_slices(c, spec["layout"], LAYOUTS[spec["layout"]], base, all_slices())
         elif spec["kind"] == "populations":
             check_populations(c, base)
         elif spec["kind"] == "map":
